@@ -218,13 +218,13 @@ Qed.
 Definition good (v : value) : Prop :=
   wf v = true ->
   (supported v = true -> exists w, encode v = Some w /\ decode w = Some (canon v)) /\
-  (supported v = false -> no_empty_hasobject v = true ->
+  (supported v = false ->
      encode v = None \/ exists w, encode v = Some w /\ decode w = None).
 
 Lemma good_list vs : Forall good vs -> forallb wf vs = true ->
   (forallb supported vs = true ->
      exists ws, omap encode vs = Some ws /\ omap decode ws = Some (map canon vs)) /\
-  (forallb supported vs = false -> forallb no_empty_hasobject vs = true ->
+  (forallb supported vs = false ->
      omap encode vs = None \/ exists ws, omap encode vs = Some ws /\ omap decode ws = None).
 Proof.
   induction 1 as [|x l Hx Hl IH]; intros Hwf.
@@ -234,13 +234,13 @@ Proof.
     + intros S. cbn [forallb] in S. apply andb_true_iff in S. destruct S as [Sx Sl].
       destruct (X1 Sx) as [w [E D]]. destruct (L1 Sl) as [ws [Es Ds]].
       exists (w :: ws). rewrite !omap_cons, E, Es, D, Ds. split; reflexivity.
-    + intros S G. cbn [forallb] in S, G. apply andb_true_iff in G. destruct G as [Gx Gl].
+    + intros S. cbn [forallb] in S.
       rewrite omap_cons.
       destruct (supported x) eqn:Sx.
       * destruct (X1 eq_refl) as [w [E D]]. rewrite E. cbn [andb] in S.
-        destruct (L2 S Gl) as [N|[ws [Es Ds]]]; [rewrite N; now left|].
+        destruct (L2 S) as [N|[ws [Es Ds]]]; [rewrite N; now left|].
         rewrite Es. right. exists (w :: ws). split; [reflexivity|]. rewrite omap_cons, D, Ds. reflexivity.
-      * destruct (X2 eq_refl Gx) as [N|[w [E D]]]; [rewrite N; now left|].
+      * destruct (X2 eq_refl) as [N|[w [E D]]]; [rewrite N; now left|].
         rewrite E. destruct (omap encode l) as [ws|]; [|now left].
         right. exists (w :: ws). split; [reflexivity|]. rewrite omap_cons, D. reflexivity.
 Qed.
@@ -251,17 +251,17 @@ Proof.
   - (* dict *) intros ks vs F W. cbn [wf] in W. destruct (good_list vs F W) as [L1 L2]. split.
     + intros S. cbn [supported] in S. apply andb_true_iff in S. destruct S as [Sk Sv].
       destruct (L1 Sv) as [ws [E D]]. exists (WMap ks ws). cbn [encode decode canon]. rewrite Sk, E, D. split; reflexivity.
-    + intros S G. cbn [supported no_empty_hasobject] in S, G. cbn [encode].
+    + intros S. cbn [supported] in S. cbn [encode].
       destruct (Nat.eqb (length ks) (length vs)); [|now left]. cbn [andb] in S.
-      destruct (L2 S G) as [N|[ws [E D]]]; [rewrite N; now left|].
+      destruct (L2 S) as [N|[ws [E D]]]; [rewrite N; now left|].
       rewrite E. right. exists (WMap ks ws). split; [reflexivity|]. cbn [decode]. rewrite D. reflexivity.
   - (* list *) intros vs F W. cbn [wf] in W. destruct (good_list vs F W) as [L1 L2]. split.
     + intros S. cbn [supported] in S. destruct (L1 S) as [ws [E D]]. exists (WArr ws).
       cbn [encode decode canon]. rewrite E, D. split; reflexivity.
-    + intros S G. cbn [supported no_empty_hasobject] in S, G. cbn [encode].
-      destruct (L2 S G) as [N|[ws [E D]]]; [rewrite N; now left|].
+    + intros S. cbn [supported] in S. cbn [encode].
+      destruct (L2 S) as [N|[ws [E D]]]; [rewrite N; now left|].
       rewrite E. right. exists (WArr ws). split; [reflexivity|]. cbn [decode]. rewrite D. reflexivity.
-  - (* tuple *) intros vs _ _. split; [discriminate|]. intros _ _. now left.
+  - (* tuple *) intros vs _ _. split; [discriminate|]. intros _. now left.
   - (* leaves *)
     intros v L W. destruct v; try (exfalso; exact L); clear L.
     + (* set *) split; [discriminate|now left].
@@ -274,26 +274,24 @@ Proof.
       rewrite from_to_bytes.
       * rewrite astype_native_idem. reflexivity.
       * rewrite astype_native_logical. change (a_dt (astype_native a)) with (a_dt a). apply wf_logical_in_range. exact W.
-    + (* other dtype *) split; [discriminate|]. intros _ G. cbn [no_empty_hasobject] in G. cbn [wf] in W. cbn [encode].
-      destruct (o_hasobject o) eqn:Ho.
-      * cbn [andb] in G. apply negb_true_iff in G. rewrite G. now left.
-      * unfold other_to_bytes. rewrite Ho. cbn [orb]. destruct (o_alignedstruct o); [now left|]. right.
-        eexists. split; [reflexivity|]. unfold decode, ext_unpack. cbn [Z.eqb EXT_ndarray Pos.eqb].
-        unfold ndarray_from_bytes, shape_wire. rewrite omap_wire_nat.
-        destruct (dtype_of_name (o_name o)); [discriminate|reflexivity].
+    + (* other dtype *) split; [discriminate|]. intros _. cbn [wf] in W. cbn [encode].
+      unfold other_to_bytes. destruct (o_hasobject o || o_alignedstruct o); [now left|]. right.
+      eexists. split; [reflexivity|]. unfold decode, ext_unpack. cbn [Z.eqb EXT_ndarray Pos.eqb].
+      unfold ndarray_from_bytes, shape_wire. rewrite omap_wire_nat.
+      destruct (dtype_of_name (o_name o)); [discriminate|reflexivity].
     + (* object array *) cbn [wf] in W. split.
       * intros S. cbn [supported] in S. destruct (obj_roundtrip _ S) as [flat [A B]].
         cbn [encode]. unfold bytes_ndarray_to_bytes. rewrite A. eexists. split; [reflexivity|].
         unfold decode, ext_unpack. cbn [Z.eqb EXT_ndarray EXT_native_complex EXT_npscalar EXT_bytes_ndarray Pos.eqb].
         unfold object_from_bytes, shape_wire. rewrite omap_wire_nat, B, W. reflexivity.
-      * intros S _. cbn [supported] in S. left. cbn [encode]. unfold bytes_ndarray_to_bytes.
+      * intros S. cbn [supported] in S. left. cbn [encode]. unfold bytes_ndarray_to_bytes.
         rewrite (obj_reject _ S). reflexivity.
     + (* numpy scalar *) split; [|discriminate]. intros _. eexists. split; [reflexivity|].
       cbn [wf] in W. unfold decode, ext_unpack. cbn [Z.eqb EXT_ndarray EXT_native_complex EXT_npscalar Pos.eqb].
       rewrite from_to_bytes.
       * reflexivity.
       * cbn. constructor; [exact W|constructor].
-    + (* other numpy scalar *) split; [discriminate|]. intros _ _. cbn [wf] in W. cbn [encode].
+    + (* other numpy scalar *) split; [discriminate|]. intros _. cbn [wf] in W. cbn [encode].
       unfold other_to_bytes. destruct (o_hasobject o || o_alignedstruct o); [now left|]. right.
       eexists. split; [reflexivity|]. unfold decode, ext_unpack.
       cbn [Z.eqb EXT_ndarray EXT_native_complex EXT_npscalar Pos.eqb].
@@ -301,7 +299,7 @@ Proof.
       destruct (dtype_of_name (o_name o)); [discriminate|reflexivity].
     + (* int *) cbn [supported encode]. destruct (int_packable z); split; try discriminate.
       * intros _. eexists. split; reflexivity.
-      * intros _ _. now left.
+      * intros _. now left.
     + split; [|discriminate]. intros _. eexists. split; reflexivity.
     + split; [|discriminate]. intros _. eexists. split; reflexivity.
     + split; [|discriminate]. intros _. eexists. split; reflexivity.
@@ -317,30 +315,23 @@ Proof.
   intros W S. destruct (all_good v W) as [G _]. destruct (G S) as [w [E D]]. unfold roundtrip. now rewrite E.
 Qed.
 
-Lemma unsupported_rejected v : wf v = true -> supported v = false -> no_empty_hasobject v = true ->
-  roundtrip v = None.
+Lemma unsupported_rejected v : wf v = true -> supported v = false -> roundtrip v = None.
 Proof.
-  intros W S G. destruct (all_good v W) as [_ H]. unfold roundtrip.
-  destruct (H S G) as [N|[w [E D]]]; [now rewrite N|now rewrite E].
+  intros W S. destruct (all_good v W) as [_ H]. unfold roundtrip.
+  destruct (H S) as [N|[w [E D]]]; [now rewrite N|now rewrite E].
 Qed.
 
-Lemma never_altered v v' : wf v = true -> no_empty_hasobject v = true -> roundtrip v = Some v' ->
-  supported v = true /\ v' = canon v.
+Lemma never_altered v v' : wf v = true -> roundtrip v = Some v' -> supported v = true /\ v' = canon v.
 Proof.
-  intros W G R. destruct (supported v) eqn:S.
+  intros W R. destruct (supported v) eqn:S.
   - rewrite (roundtrip_supported v W S) in R. injection R as <-. split; reflexivity.
-  - rewrite (unsupported_rejected v W S G) in R. discriminate.
+  - rewrite (unsupported_rejected v W S) in R. discriminate.
 Qed.
 
 Lemma content_preserved a :
   a_dt (astype_native a) = a_dt a /\ a_shape (astype_native a) = a_shape a /\
   a_order (astype_native a) = Native /\ logical (astype_native a) = logical a.
 Proof. repeat split. apply astype_native_logical. Qed.
-
-Lemma defect_witness : exists v v', wf v = true /\ supported v = false /\ roundtrip v = Some v' /\ v' <> canon v.
-Proof.
-  exists (sample (TOther true false true)), (VObj [0%nat] []). vm_compute. repeat split. discriminate.
-Qed.
 
 Lemma dispatch_total : forall t, In t all_tags -> tag_ok t = true.
 Proof. apply forallb_forall. vm_compute. reflexivity. Qed.
